@@ -490,6 +490,8 @@ class Client:
             login = login.encode("utf-8")
         if isinstance(password, str):
             password = password.encode("utf-8")
+        # "=" and "," must be escaped in the gs2 header (RFC 5801, saslname)
+        login = login.replace(b"=", b"=3D").replace(b",", b"=2C")
         token = b"n,a=" + login + b",\001auth=Bearer " + password + b"\001\001"
         token = base64.b64encode(token)
         code, data = self.__send_command("AUTHENTICATE", [b"OAUTHBEARER", token])
